@@ -240,9 +240,12 @@ def run_soup(case):
 
 # ------------------------------------------------------------------ oracle (2)
 GOOD = ("SUMMARY:good", "DTSTART;TZID=Europe/Berlin:20240601T100000", "RRULE:FREQ=DAILY;COUNT=2", "ATTENDEE;CN=A:mailto:a@x", "COMMENT:one",
-        "COMMENT:two", "X-GOOD;P=1:v", "CATEGORIES:a,b")
+        "COMMENT:two", "X-GOOD;P=1:v", "CATEGORIES:a,b", "FREEBUSY:19970308T160000Z/PT3H,19970308T200000Z/19970308T210000Z")
 BAD = ("DTSTART:notadate", "RRULE:FREQ=FOO", "GEO:1", "DURATION:P", "X-BAD;P:v", ":novalue", "ATTENDEE;CN=\"x:y", "DTEND:20241301T000000",
-       "COMMENT;=x:three", "RDATE:2024")
+       "COMMENT;=x:three", "RDATE:2024",
+       # multi-valued lines of which only ONE element is unparsable: the LINE is bad
+       "FREEBUSY:19970308T160000Z/PT3H,19970308T200000Z/XX", "FREEBUSY:,19970308T160000Z/PT3H",
+       "EXDATE;TZID=Europe/Berlin:20240601T100000,2024")
 ALARM = ["BEGIN:VALARM", "ACTION:DISPLAY", "TRIGGER:-PT5M", "END:VALARM"]
 _BADNESS = {}
 
